@@ -42,7 +42,8 @@ def stub_fmt_note():
 
 
 # c01_finalize_orders_children / c01_finalize_compresses_static_chain (harness/C01/final.rs) are written but NOT registered:
-# no answer within 15 min (sort_by + Cow<str> comparison + format! in merge_statics under CBMC).
+# no answer within 15 min (sort_by + Cow<str> comparison + format! in merge_statics under CBMC); retried in session 2 with the registration order as a
+# compile-time constant and the result forgotten: 19 GB after 11 min, still no answer.
 TRUSTED = ["reference expectations per tree in harness/C01/final.rs (segment-wise matching transcribed from the property statement)"]
 ASSUMPTIONS = ["children order as the documented precondition of Node::search demands (statics in reverse alphabetical order, param last); From<base::Node> (compression, child sort), registration and merge of nested Ohkamis are not under a discharged contract (harnesses written, no answer in 15 min)",
                "percent-encoded request bytes are compared raw by the router (decoding is C07)"]
